@@ -143,6 +143,24 @@ Theorem gen_allowed_consistent L p q :
   granted (gen_permits L [q; everyone] p) = true.
 Proof. rewrite gen_permits_is_model, gen_principals_allowed_is_model. apply allowed_consistent. Qed.
 
+(* ------------------------------------------------------------ the public wrapper ACLAuthorizationPolicy *)
+Theorem gen_policy_permits_is_model L ps p : gen_policy_permits L ps p = permits L ps p.
+Proof. unfold gen_policy_permits. apply gen_permits_is_model. Qed.
+
+Theorem gen_policy_principals_allowed_is_model L p :
+  gen_policy_principals_allowed L p = principals_allowed L p.
+Proof. unfold gen_policy_principals_allowed. apply gen_principals_allowed_is_model. Qed.
+
+Theorem gen_policy_permits_first_match L ps p :
+  granted (gen_policy_permits L ps p) = spec_granted L ps p.
+Proof. rewrite gen_policy_permits_is_model. apply permits_first_match. Qed.
+
+Theorem gen_policy_allowed_consistent L p q :
+  wf_lineage L = true ->
+  In q (gen_policy_principals_allowed L p) ->
+  granted (gen_policy_permits L [q; everyone] p) = true.
+Proof. rewrite gen_policy_permits_is_model, gen_policy_principals_allowed_is_model. apply allowed_consistent. Qed.
+
 (* non-vacuity, computed by the regenerated program itself *)
 Example c11_gen_nonvacuous :
   let alice := [97; 108]%N in let view := [118]%N in
